@@ -114,6 +114,7 @@ func runRoute(raw json.RawMessage) (interface{}, error) {
 		if s, ok := sum.([]interface{}); ok && len(s) == 2 {
 			o.SrcLis = Some(s[1])
 		}
+		observeJSON(c.ID, res)
 		for name, l := range res {
 			lisName = name
 			fm.set(xdsresource.ListenerType, name, l, nil)
@@ -140,6 +141,7 @@ func runRoute(raw json.RawMessage) (interface{}, error) {
 		o.DecodeErr = true
 		return o, nil
 	}
+	observeJSON(c.ID, named)
 	// source tables keyed by name: later resources of a name win, as in the decoder
 	srcByName := map[string]interface{}{}
 	for _, a := range anys {
